@@ -155,3 +155,227 @@ Example c14_ex_schedule :
   | None => False
   end.
 Proof. vm_compute. split; reflexivity. Qed.
+
+(** * Bounded outputs (Model/ProcessorBounded.v; proofs in Proofs/ProcessorBoundedProofs.v).
+    The servers write into outputs that reject what does not fit: FNatsServer into a TMemoryOutputBuffer of
+    1 MiB, any caller of Process into NewTMemoryOutputBuffer(limit); the HTTP handler compares afterwards.
+    [process_b lim chunk svc h can_reset etext frame] is Process write by write: every transport write of
+    WriteResponseHeader / WriteMessageBegin / result.Write ([chunk]: how the generated Write cuts the result) /
+    TApplicationException.Write with its fate, the buffer emptying itself on a rejected write, trapError,
+    sendError's second attempt under the op-id-only header block, the unknown-method answer.
+    [lim = None]: an output that rejects nothing; [Some l]: NewTMemoryOutputBuffer(l).
+    [fits lim n]: an empty buffer accepts a message of n bytes (see [c14_fits_meaning]). *)
+From FV Require Import Model.ProcessorBounded Proofs.ProcessorBoundedProofs.
+
+Theorem c14_fits_meaning : forall lim n,
+  fits lim n = true <-> match lim with Some l => l <= 0 \/ n + 4 <= l | None => True end.
+Proof. exact fits_iff. Qed.
+Print Assumptions c14_fits_meaning.
+
+(** ** the theorems above are the instance limit = None: for every frame, service, handler and cutting of
+    the result, the bounded model with no limit returns the same error flag, leaves in a memory buffer
+    exactly what [process] leaves, and its writes (their fate forgotten) cannot be told apart from
+    [process]'s events by any framed or memory output. *)
+Theorem c14_bounded_refines_unbounded : forall chunk svc h can_reset etext frame,
+  chunk_ok chunk ->
+  fst (process_b None chunk svc h can_reset etext frame) = fst (process svc h can_reset etext frame) /\
+  same_output (erase (bo_trace (snd (process_b None chunk svc h can_reset etext frame))))
+              (snd (process svc h can_reset etext frame)) /\
+  bo_data (snd (process_b None chunk svc h can_reset etext frame)) = mem_run (snd (process svc h can_reset etext frame)).
+Proof. exact process_b_refines. Qed.
+Print Assumptions c14_bounded_refines_unbounded.
+
+(** ** the write-by-write run leaves exactly what the table by sizes says, for EVERY limit, plan (handler
+    outcome, response headers, method name), error text and cutting: [spec_plan] never looks at single writes. *)
+Theorem c14_bounded_exact : forall lim chunk etext p,
+  chunk_ok chunk ->
+  fst (run_plan lim chunk true etext p) = fst (spec_plan lim true etext p) /\
+  bo_data (snd (run_plan lim chunk true etext p)) = snd (spec_plan lim true etext p) /\
+  closed_out (snd (run_plan lim chunk true etext p)).
+Proof. exact run_plan_spec. Qed.
+Print Assumptions c14_bounded_exact.
+
+(** ** at most one whole message is flushed, for ANY frame whatsoever and any limit: either the buffer is
+    empty and no Flush happened, or there was exactly one Flush, it was the last event, and the buffer is
+    not empty ([closed_out]). *)
+Theorem c14_bounded_at_most_one_frame : forall lim chunk svc h etext frame,
+  chunk_ok chunk -> closed_out (snd (process_b lim chunk svc h true etext frame)).
+Proof. exact process_b_closed. Qed.
+Print Assumptions c14_bounded_at_most_one_frame.
+
+(** ** whatever is flushed is a well-formed REPLY or EXCEPTION carrying the REQUEST's op id, for every
+    limit, handler outcome, set of response headers and request with decodable headers and envelope
+    (hypotheses as for [c14_exactly_one_reply]; [plan_small]: lengths fit an int32). *)
+Theorem c14_bounded_reply_carries_request_opid : forall lim chunk svc h etext frame opid a,
+  chunk_ok chunk -> handler_ok h ->
+  expected_answer svc h frame = Some (opid, a) ->
+  plan_small etext (plan_of svc h etext frame) ->
+  let s := snd (process_b lim chunk svc h true etext frame) in
+  closed_out s /\ (bo_data s = [] \/ exists k, classify_reply (bo_data s) = Some (opid, k)).
+Proof. exact process_b_wellformed. Qed.
+Print Assumptions c14_bounded_reply_carries_request_opid.
+
+(** the plan of such a request is well-formed with the request's op id in its response headers and is the
+    row of the table [expected_answer] names — this connects the plan-level theorems below to requests *)
+Theorem c14_bounded_plan_of_request : forall svc h etext frame opid a,
+  handler_ok h ->
+  expected_answer svc h frame = Some (opid, a) ->
+  plan_wf opid (plan_of svc h etext frame) /\ plan_answer (plan_of svc h etext frame) = a /\
+  plan_of svc h etext frame <> PFail.
+Proof. exact plan_of_request. Qed.
+Print Assumptions c14_bounded_plan_of_request.
+
+(** ** SendReply.  The reply is the normal one iff it fits; if it does not fit (or its Write fails before
+    the limit is reached: INTERNAL_ERROR) the answer is an EXCEPTION of kind RESPONSE_TOO_LARGE — with all
+    response headers if that fits — and an answer IS left whenever the exception under the op-id-only header
+    block fits, i.e. whenever
+        min_error_frame opid name kind etext = 34 + |op id| + |method name| + |exception struct|  <=  limit;
+    when even that does not fit the buffer is empty (Process still returns nil: the error is only logged). *)
+Theorem c14_bounded_reply : forall lim chunk etext rh name rb wok opid,
+  chunk_ok chunk ->
+  plan_wf opid (PReply rh name rb wok) -> plan_small etext (PReply rh name rb wok) ->
+  let r := run_plan lim chunk true etext (PReply rh name rb wok) in
+  let out := bo_data (snd r) in
+  let normal := msg_bytes rh name mt_reply rb in
+  let kind := if fits lim (zlen normal) then ex_internal_error else ex_response_too_large in
+  fst r = false /\
+  (fits lim (zlen normal) = true -> wok = true -> out = normal /\ classify_reply out = Some (opid, None)) /\
+  (fits lim (zlen normal) = false \/ wok = false ->
+     (fits lim (zlen (exc_bytes rh name kind etext)) = true -> out = exc_bytes rh name kind etext) /\
+     (fits lim (min_error_frame opid name kind etext - 4) = true -> classify_reply out = Some (opid, Some kind)) /\
+     (fits lim (min_error_frame opid name kind etext - 4) = false -> out = [])).
+Proof. exact bounded_reply. Qed.
+Print Assumptions c14_bounded_reply.
+
+(** in short, for a result that can be written: the output is the normal reply iff it fits, and whatever else
+    is left is RESPONSE_TOO_LARGE exactly when it does not *)
+Theorem c14_bounded_reply_iff_fits : forall lim chunk etext rh name rb opid,
+  chunk_ok chunk ->
+  plan_wf opid (PReply rh name rb true) -> plan_small etext (PReply rh name rb true) ->
+  let out := bo_data (snd (run_plan lim chunk true etext (PReply rh name rb true))) in
+  let normal := msg_bytes rh name mt_reply rb in
+  (classify_reply out = Some (opid, None) <-> fits lim (zlen normal) = true) /\
+  (out = normal <-> fits lim (zlen normal) = true) /\
+  (out <> [] -> (classify_reply out = Some (opid, Some ex_response_too_large) <-> fits lim (zlen normal) = false)).
+Proof. exact bounded_reply_iff. Qed.
+Print Assumptions c14_bounded_reply_iff_fits.
+
+(** ** SendError (undecodable arguments, TApplicationException, other handler error): the kind never
+    changes; the exception goes out with all response headers if that fits, else with the op id only if that
+    fits, else nothing is left. *)
+Theorem c14_bounded_error : forall lim chunk etext rh name kind msg opid,
+  chunk_ok chunk ->
+  plan_wf opid (PError rh name kind msg) -> plan_small etext (PError rh name kind msg) ->
+  let r := run_plan lim chunk true etext (PError rh name kind msg) in
+  let out := bo_data (snd r) in
+  fst r = false /\
+  (fits lim (zlen (exc_bytes rh name kind msg)) = true -> out = exc_bytes rh name kind msg) /\
+  (fits lim (min_error_frame opid name kind msg - 4) = true -> classify_reply out = Some (opid, Some kind)) /\
+  (fits lim (min_error_frame opid name kind msg - 4) = false -> out = []).
+Proof. exact bounded_error. Qed.
+Print Assumptions c14_bounded_error.
+
+(** ** unknown method (after fix 54aa11f: the same fallback): UNKNOWN_METHOD whenever the op-id-only
+    exception fits; Process returns an error exactly when nothing could be left. *)
+Theorem c14_bounded_unknown_method : forall lim chunk etext rh name opid,
+  chunk_ok chunk ->
+  plan_wf opid (PUnknown rh name) -> plan_small etext (PUnknown rh name) ->
+  let r := run_plan lim chunk true etext (PUnknown rh name) in
+  let out := bo_data (snd r) in
+  let msg := unknown_function ++ name in
+  (fst r = true <-> out = []) /\
+  (fits lim (zlen (exc_bytes rh name ex_unknown_method msg)) = true -> out = exc_bytes rh name ex_unknown_method msg) /\
+  (fits lim (min_error_frame opid name ex_unknown_method msg - 4) = true ->
+   classify_reply out = Some (opid, Some ex_unknown_method)) /\
+  (fits lim (min_error_frame opid name ex_unknown_method msg - 4) = false -> out = []).
+Proof. exact bounded_unknown. Qed.
+Print Assumptions c14_bounded_unknown_method.
+
+(** Process returns an error for a request with decodable headers and envelope only in that last case *)
+Theorem c14_bounded_process_error : forall lim chunk svc h etext frame opid a,
+  chunk_ok chunk -> handler_ok h ->
+  expected_answer svc h frame = Some (opid, a) ->
+  fst (process_b lim chunk svc h true etext frame) = true ->
+  a = AExc ex_unknown_method /\ bo_data (snd (process_b lim chunk svc h true etext frame)) = [].
+Proof. exact process_b_error. Qed.
+Print Assumptions c14_bounded_process_error.
+
+(** ** servers.  FNatsServer publishes exactly what is left in its 1 MiB buffer; when nothing is left
+    nothing is published: the caller's Request ends in its timeout.  The HTTP handler returns the unbounded
+    answer, or 413 when the caller's x-frugal-payload-limit is exceeded (the client turns that into
+    RESPONSE_TOO_LARGE): one answer in either case. *)
+Theorem c14_bounded_nats_publishes : forall chunk svc h etext frame,
+  chunk_ok chunk ->
+  nats_frame_b chunk svc h etext frame =
+  match bo_data (snd (process_b (Some nats_max) chunk svc h true etext frame)) with [] => None | d => Some d end.
+Proof. exact nats_frame_b_spec. Qed.
+Print Assumptions c14_bounded_nats_publishes.
+
+Theorem c14_bounded_http_limit : forall limit chunk svc h etext frame,
+  chunk_ok chunk ->
+  http_frame_b limit chunk svc h etext frame =
+  match http_frame svc h etext frame with
+  | H500 => HB500
+  | H200 body => if (0 <? limit) && (limit <? zlen body) then HB413 else HB200 body
+  end.
+Proof. exact http_frame_b_spec. Qed.
+Print Assumptions c14_bounded_http_limit.
+
+(** ** the two models of this code path agree: C12's model by sizes (Model/SizeLimit.v [server_bounded], what
+    FNatsServer publishes for a reply) computes, on the sizes of the writes of the byte model, exactly the
+    length and kind of what the byte model leaves — for every limit, headers, result, error text, cutting. *)
+From FV Require Proofs.ProcessorBoundedSizeLimit.
+Theorem c14_bounded_agrees_with_c12 : forall l chunk rh name rb etext,
+  chunk_ok chunk ->
+  FV.Model.SizeLimit.server_bounded l (ProcessorBoundedSizeLimit.size_view chunk rh name rb etext) =
+  match snd (spec_plan (Some l) true etext (PReply rh name rb true)) with
+  | [] => None
+  | d => Some (if fits (Some l) (zlen (msg_bytes rh name mt_reply rb))
+               then FV.Model.SizeLimit.FReply else FV.Model.SizeLimit.FTooLarge, 4 + zlen d)
+  end.
+Proof. exact ProcessorBoundedSizeLimit.server_bounded_agrees. Qed.
+Print Assumptions c14_bounded_agrees_with_c12.
+
+(** ** non-vacuity: a handler that adds a response header of 40 bytes and returns a 64-byte result.
+    The reply frame is 4 + 163 bytes; the RESPONSE_TOO_LARGE exception with all headers 4 + 118 (error text of
+    5 bytes), with the op id only 4 + 56. *)
+Definition ex_chunk : bytes -> list bytes := fun b => split_sizes [1; 2; 4] b.
+Definition ex_big : bytes := repeat 120 40.
+Definition ex_handler_b : handler :=
+  fun _ _ _ => ([([120], ex_big)], HResult ([11; 0; 0; 0; 0; 0; 57] ++ repeat 97 57 ++ [0]) true).
+Definition ex_etext : bytes := [108; 105; 109; 105; 116].
+Definition ex_req : bytes := ex_frame [112; 105; 110; 103] [0].
+Definition ex_out (l : Z) : bool * bytes :=
+  let r := process_b (Some l) ex_chunk ex_svc ex_handler_b true ex_etext ex_req in (fst r, bo_data (snd r)).
+
+Definition r_headers_of (b : bytes) : list hpair := match parse_reply b with Ok r => r_headers r | _ => [] end.
+
+Example c14_ex_chunk_ok : chunk_ok ex_chunk.
+Proof. exact (split_sizes_ok [1; 2; 4]). Qed.
+
+Example c14_ex_handler_b_ok : handler_ok ex_handler_b.
+Proof. intros name hdrs args. split; [reflexivity|exact I]. Qed.
+
+(** a reply that fits (limit = its frame size), one byte less: overflow, the exception with all headers fits;
+    headers alone overflow: the op-id-only exception; nothing fits: nothing is left, Process returns nil *)
+Example c14_ex_bounded :
+  expected_answer ex_svc ex_handler_b ex_req = Some ([52; 50], AReply) /\
+  (zlen (snd (ex_out 167)) = 163 /\ classify_reply (snd (ex_out 167)) = Some ([52; 50], None)) /\
+  (zlen (snd (ex_out 166)) = 118 /\ classify_reply (snd (ex_out 166)) = Some ([52; 50], Some ex_response_too_large) /\
+   Headers.lookup [120] (r_headers_of (snd (ex_out 166))) = Some ex_big) /\
+  (zlen (snd (ex_out 121)) = 56 /\ classify_reply (snd (ex_out 121)) = Some ([52; 50], Some ex_response_too_large) /\
+   Headers.lookup [120] (r_headers_of (snd (ex_out 121))) = None) /\
+  min_error_frame [52; 50] [112; 105; 110; 103] ex_response_too_large ex_etext = 60 /\
+  zlen (snd (ex_out 60)) = 56 /\
+  ex_out 59 = (false, []) /\
+  nats_frame_b ex_chunk ex_svc ex_handler_b ex_etext ex_req = Some (snd (ex_out 167)) /\
+  http_frame_b 162 ex_chunk ex_svc ex_handler_b ex_etext ex_req = HB413 /\
+  http_frame_b 163 ex_chunk ex_svc ex_handler_b ex_etext ex_req = HB200 (snd (ex_out 167)).
+Proof. vm_compute. repeat split; reflexivity. Qed.
+
+(** an unknown method on a buffer too small for any answer: Process returns the error *)
+Example c14_ex_bounded_unknown :
+  fst (process_b (Some 30) ex_chunk ex_svc ex_handler_b true [] (ex_frame [120] [0])) = true /\
+  classify_reply (bo_data (snd (process_b (Some 70) ex_chunk ex_svc ex_handler_b true [] (ex_frame [120] [0]))))
+  = Some ([52; 50], Some ex_unknown_method).
+Proof. vm_compute. split; reflexivity. Qed.
